@@ -16,7 +16,7 @@ from __future__ import annotations
 import ast
 
 from ..effects import StateEffects
-from ..model import Program, call_name, is_self_attr, norm
+from ..model import Program, call_name, is_self_attr, norm, unroll_constant_loops
 from ..report import AnalysisError
 
 PROP = "C09"
@@ -379,7 +379,8 @@ def rule_r5(rep, program: Program):
     sparam = ss.params[1]
     set_map = {}
     rebuilt: dict[str, ast.expr] = {}  # fields __setstate__ rebuilds instead of restoring
-    for st in ast.walk(ss.node):
+    ss_body = ast.Module(body=unroll_constant_loops(ss.body_without_docstring()), type_ignores=[])
+    for st in ast.walk(ss_body):
         if isinstance(st, ast.Assign) and len(st.targets) == 1:
             t = st.targets[0]
             fld = None
@@ -439,7 +440,13 @@ def rule_r6(rep, program: Program):
     txt = norm(v) if v is not None else ""
     sysp, methp = kf.params[0], kf.params[1]
     has_id = any(isinstance(c, ast.Call) and norm(c.func) == "id" and c.args and norm(c.args[0]) == sysp for c in ast.walk(v)) if v is not None else False
-    has_method = methp in {x.id for x in ast.walk(v) if isinstance(x, ast.Name)} if v is not None else False
+    # names derived from the method parameter (e.g. `name = method if isinstance(method, str) else method.__name__`)
+    derived = {methp}
+    for _ in range(3):
+        for a in ast.walk(kf.node):
+            if isinstance(a, ast.Assign) and len(a.targets) == 1 and isinstance(a.targets[0], ast.Name) and derived & {x.id for x in ast.walk(a.value) if isinstance(x, ast.Name)}:
+                derived.add(a.targets[0].id)
+    has_method = bool(derived & {x.id for x in ast.walk(v) if isinstance(x, ast.Name)}) if v is not None else False
     has_type = f"type({sysp})" in txt or f"{sysp}.__class__" in txt
     r.inst({"cache key": txt, "system identity": has_id, "method": has_method, "class": has_type})
     if not has_id:
